@@ -246,6 +246,8 @@ def run(rep):
   ts = tasks(rep.tier)
   for t in ts:
     t['timeout'] = 600 if rep.tier == 'quick' else 1800
+    if t.get('stretch'):
+      t['task_timeout'] = 2400
   rep.bounds = dict(grid=[(t['n'], t['dim'], t['rank']) if 'n' in t else dict(axis_dims_per_layer=t['layers'], rank=t['rank']) for t in ts], scores='every float32 that is 0 or in [2^-40, 2^40], per axis',
                     groups='one group of n equal-dimension axes; plus layers with two axes forming 2-3 groups of different dimension', paths='all paths up to 400 per grid point')
   rep.stubs = ['score_fn -> symbolic float32 scores (scoring rules are outside the budget claim)', 'checkpoint loading bypassed (states passed in memory)']
